@@ -8,7 +8,7 @@ SPEC = {
         "AM.Nflog.fold_merge_newest", "AM.Nflog.fold_merge_from_offers", "AM.Nflog.mergeBatch_fst", "AM.Nflog.foldl_merge_ge",
     ],
     "engines": [
-        {"name": "nflog", "pkg": "./nflog", "search_cases": 30000},
+        {"name": "nflog", "pkg": "./nflog", "timeout_quick": 90, "search_cases": 30000},
     ],
     "rule": "random op sequences (log/merge batch 1-4/gc/query/snapshot+reload) on two real nflog.Log under synctest virtual time, "
             "5 state keys, instants on a 1 s grid so equal timestamps and expiry boundaries are frequent; a case is non-trivial when it "
